@@ -67,7 +67,7 @@ def answer_subst(ck, facts, R):
                "do the same for their kinds; free answer variables go through unify_free_answer_var")
     b = need_body(ck, facts, R, AS + "::zip_tys")
     if b:
-        ms = pair_match(b.thir, "chalk_ir::TyKind")
+        ms = pair_match(facts.thir(b.key), "chalk_ir::TyKind")
         if len(ms) != 1:
             ck.violation(R, "zip_tys:table", b.where(), "expected exactly one match on (answer.kind, pending.kind), found %d" % len(ms))
         else:
@@ -88,7 +88,7 @@ def answer_subst(ck, facts, R):
             ck.ok(R, fn + ":free-answer-var")
         else:
             ck.violation(R, fn + ":free-answer-var", b.where(), "a free variable of the answer must be unified with the pending goal's term")
-        ms = pair_match(b.thir, adt)
+        ms = pair_match(facts.thir(b.key), adt)
         if len(ms) != 1:
             ck.violation(R, fn + ":table", b.where(), "expected exactly one match on the pair of kinds, found %d" % len(ms))
             continue
